@@ -45,12 +45,27 @@ class Gate:
     def __init__(self):
         self.waiters = []
         self.total = 0
+        self.timed = []      # (virtual wake time, sequence number, future): releases can follow the virtual clock
+        self.now = 0.0
 
     async def wait(self, delay):
         fut = asyncio.get_running_loop().create_future()
         self.waiters.append(fut)
         self.total += 1
+        self.timed.append((self.now + float(delay), self.total, fut))
         await fut
+
+    def release_earliest(self, before_seq=None):
+        """Release the pending sleeper with the smallest virtual wake time (optionally only among those registered
+        up to sequence number before_seq) and advance the virtual clock to it."""
+        cand = [(w, n, f) for (w, n, f) in self.timed if not f.done() and (before_seq is None or n <= before_seq)]
+        self.timed = [x for x in self.timed if not x[2].done()]
+        if not cand:
+            return False
+        w, n, f = min(cand)
+        self.now = max(self.now, w)
+        f.set_result(None)
+        return True
 
     def pending(self):
         return sum(1 for f in self.waiters if not f.done())
@@ -91,6 +106,17 @@ def setup_env(virtual_sleep=True):
     proxy = AsyncioProxy()
     if virtual_sleep:
         sm.asyncio = proxy
+    import frontend.server.services.service as sservice
+    sent_log = []
+    orig_send = sservice.send_message
+
+    def recording_send(websocket, sid, msg_type, content, **additional_field):
+        sent_log.append((sid, msg_type, asyncio.get_event_loop().time()))
+        if len(sent_log) > 5000:
+            del sent_log[:2500]
+        return orig_send(websocket, sid, msg_type, content, **additional_field)
+    sservice.send_message = recording_send
+    _env["sent_log"] = sent_log
     _env.update(global_config=global_config, connector=connector, sm=sm, sfm=sfm, cservice=cservice, cfm=cfm,
                 proxy=proxy)
     return _env
